@@ -7,7 +7,7 @@ from collections import defaultdict
 import enum
 from typing import (
     TYPE_CHECKING, Any, Callable, ClassVar, DefaultDict, Dict, Generator,
-    Iterator, List, Mapping, Optional, Sequence, Tuple, Union,
+    Iterator, List, Mapping, Optional, Sequence, Set, Tuple, Union,
 )
 import ast
 import re
@@ -415,6 +415,8 @@ class FieldHandler:
     def handle_keyword(self, field: Field) -> None:
         name = self._handle_param_name(field)
         if name is not None:
+            if any(desc.name == name for desc in self.parameter_descs):
+                field.report('Parameter "%s" was already documented' % (name,))
             # TODO: How should this be matched to the type annotation?
             self.parameter_descs.append(KeywordDesc(name=name, body=field.format()))
             if name in self.types:
@@ -922,6 +924,7 @@ def extract_fields(obj: model.CanContainImportsDocumentable) -> None:
     parsed_doc = parse_docstring(obj, doc, obj)
     obj.parsed_docstring = parsed_doc
 
+    documented: Set[str] = set()
     for field in parsed_doc.fields:
         tag = field.tag()
         if tag in ['ivar', 'cvar', 'var', 'type']:
@@ -930,6 +933,11 @@ def extract_fields(obj: model.CanContainImportsDocumentable) -> None:
                 obj.report("Missing field name in @%s" % (tag,),
                            'docstring', field.lineno)
                 continue
+            if tag != 'type':
+                if arg in documented:
+                    obj.report('Variable "%s" was already documented' % (arg,),
+                               'docstring', field.lineno)
+                documented.add(arg)
             attrobj: Optional[model.Documentable] = obj.contents.get(arg)
             if attrobj is None:
                 attrobj = obj.system.Attribute(obj.system, arg, obj)
